@@ -131,6 +131,7 @@ package literals
 //@   may_panic when t != token.XOR && t != token.ADD && t != token.SUB
 //@   assigns nothing
 //@   ensures @emits-the-inverse-operator-on-the-same-operands: r0 != nil && r0.Op == spec.Rev(t) && r0.X == x && r0.Y == y
+//@   ensures @the-expression-is-a-new-node: fresh(r0)
 //@ end
 
 //@ lemma reversed-operator-inverts
@@ -145,6 +146,7 @@ package literals
 
 //@ func getIndexType
 //@   property C05
+//@   pure
 //@   spec indextype.smt2
 //@   requires 0 <= dataLen
 //@   assigns nothing
@@ -306,4 +308,56 @@ package literals
 //@   trusted stores the value in one of the proxy structs and returns the selector path that reads it back at run time; it creates nodes and changes only the dispatcher's own bookkeeping
 //@   assigns proxyDispatcher.root, proxyDispatcher.flattenStructs, proxyStruct.values, proxyStruct.children, proxyStruct.parent
 //@   ensures r0 != nil
+//@ end
+
+// ---- C05: the swap obfuscator ----
+// Going through the position pairs from the last to the first, the encoder replaces
+//   data[p], data[q] = data[q] <op> lk, data[p] <op> lk     with lk = byte(i) + byte(p^q) + shiftKey;
+// the emitted loop goes through the same pairs from the first to the last and runs
+//   localKey := byte(i) + byte(positions[i]^positions[i+1]) + <shiftKey>
+//   data[positions[i]], data[positions[i+1]] = data[positions[i+1]] <inverse op> localKey, data[positions[i]] <inverse op> localKey
+// which undoes one encoder step (lemma reversed-operator-inverts; also when p == q, where both sides
+// assign the same value twice). Each encoder iteration is proved to perform exactly that step; that the
+// emitted steps run in the opposite order over the same pairs is pinned by the loop header (0, +2, < len)
+// and the positions literal.
+
+//@ ghost posLit map[ref]int
+
+//@ hookset poslit
+//@ hook after mvdan.cc/garble/internal/asthelper.IntLit(v) (r)
+//@   posLit[r] = v
+//@ hook before mvdan.cc/garble/internal/literals.getIndexType(n)
+//@   assert("element-type-is-chosen-for-the-number-of-positions", n == int64(len(data)))
+//@ end
+
+//@ func positionsToSlice
+//@   property C05
+//@   spec indextype.smt2
+//@   hooks poslit
+//@   skip safety
+//@   ensures @one-literal-per-position-in-order: r0 != nil && len(r0.Elts) == len(data)
+//@   loop 0
+//@     invariant len(arr.Elts) == _i
+//@     invariant @literal-k-is-position-k: _i >= 1 ==> posLit[arr.Elts[_i-1]] == data[_i-1]
+//@ end
+
+//@ func (swap).obfuscate
+//@   property C05
+//@   intmode bv
+//@   spec ops.smt2
+//@   hooks emitbytes denote
+//@   requires len(data) >= 1 && len(extKeys) > 0
+//@   skip safety call-requires
+//@   ghost pa byte
+//@   ghost pb byte
+//@   ghost pi int
+//@   ensures @decoder-loop-visits-the-pairs-from-the-first-to-the-last: r0 != nil && len(r0.List) == 3 && dyntypeis(r0.List[2], *ast.ForStmt) && r0.List[2].(*ast.ForStmt).Init.(*ast.AssignStmt).Lhs[0].(*ast.Ident).Name == "i" && r0.List[2].(*ast.ForStmt).Init.(*ast.AssignStmt).Rhs[0].(*ast.BasicLit).Value == strconv.Itoa(0) && r0.List[2].(*ast.ForStmt).Cond.(*ast.BinaryExpr).Op == token.LSS && r0.List[2].(*ast.ForStmt).Cond.(*ast.BinaryExpr).X.(*ast.Ident).Name == "i" && r0.List[2].(*ast.ForStmt).Cond.(*ast.BinaryExpr).Y.(*ast.BasicLit).Value == strconv.Itoa(len(positions)) && r0.List[2].(*ast.ForStmt).Post.(*ast.AssignStmt).Tok == token.ADD_ASSIGN && r0.List[2].(*ast.ForStmt).Post.(*ast.AssignStmt).Rhs[0].(*ast.BasicLit).Value == strconv.Itoa(2)
+//@   ensures @decoder-key-is-byte-i-plus-byte-of-the-xored-positions-plus-the-shift-key: len(r0.List[2].(*ast.ForStmt).Body.List) == 2 && dyntypeis(r0.List[2].(*ast.ForStmt).Body.List[0], *ast.AssignStmt) && r0.List[2].(*ast.ForStmt).Body.List[0].(*ast.AssignStmt).Lhs[0].(*ast.Ident).Name == "localKey" && dyntypeis(r0.List[2].(*ast.ForStmt).Body.List[0].(*ast.AssignStmt).Rhs[0], *ast.BinaryExpr) && r0.List[2].(*ast.ForStmt).Body.List[0].(*ast.AssignStmt).Rhs[0].(*ast.BinaryExpr).Op == token.ADD && den[r0.List[2].(*ast.ForStmt).Body.List[0].(*ast.AssignStmt).Rhs[0].(*ast.BinaryExpr).Y] == shiftKey && r0.List[2].(*ast.ForStmt).Body.List[0].(*ast.AssignStmt).Rhs[0].(*ast.BinaryExpr).X.(*ast.BinaryExpr).Op == token.ADD && r0.List[2].(*ast.ForStmt).Body.List[0].(*ast.AssignStmt).Rhs[0].(*ast.BinaryExpr).X.(*ast.BinaryExpr).Y.(*ast.CallExpr).Args[0].(*ast.BinaryExpr).Op == token.XOR
+//@   ensures @decoder-swaps-back-with-the-inverse-operator: dyntypeis(r0.List[2].(*ast.ForStmt).Body.List[1], *ast.AssignStmt) && len(r0.List[2].(*ast.ForStmt).Body.List[1].(*ast.AssignStmt).Lhs) == 2 && len(r0.List[2].(*ast.ForStmt).Body.List[1].(*ast.AssignStmt).Rhs) == 2 && r0.List[2].(*ast.ForStmt).Body.List[1].(*ast.AssignStmt).Tok == token.ASSIGN && r0.List[2].(*ast.ForStmt).Body.List[1].(*ast.AssignStmt).Rhs[0].(*ast.BinaryExpr).Op == spec.Rev(op) && r0.List[2].(*ast.ForStmt).Body.List[1].(*ast.AssignStmt).Rhs[1].(*ast.BinaryExpr).Op == spec.Rev(op) && r0.List[2].(*ast.ForStmt).Body.List[1].(*ast.AssignStmt).Rhs[0].(*ast.BinaryExpr).Y.(*ast.Ident).Name == "localKey" && r0.List[2].(*ast.ForStmt).Body.List[1].(*ast.AssignStmt).Rhs[1].(*ast.BinaryExpr).Y.(*ast.Ident).Name == "localKey"
+//@   loop 0
+//@     iter pa = data[positions[i]]
+//@     iter pb = data[positions[i+1]]
+//@     iter pi = i
+//@     invariant @each-step-swaps-the-pair-and-encodes-both-with-the-local-key: i + 2 <= len(positions) - 2 && pi == i + 2 ==> data[positions[pi+1]] == spec.Eval(op, pa, byte(pi) + byte(positions[pi]^positions[pi+1]) + shiftKey) && (positions[pi] != positions[pi+1] ==> data[positions[pi]] == spec.Eval(op, pb, byte(pi) + byte(positions[pi]^positions[pi+1]) + shiftKey))
+//@     invariant @positions-stay-what-the-decoder-will-be-given: forall k int :: 0 <= k && k < len(positions) ==> positions[k] == entry(positions[k]) && 0 <= positions[k] && positions[k] < len(data)
 //@ end
